@@ -17,6 +17,6 @@ PROP = dict(
     modelled="admission order, fee calculator, gas loop and block packing are modelled and proved; the VM run of a witness is an oracle (its cost is tied to the model by comparing Blockchain.VerifyWitness gas per shape); ledger acceptance of the packed block is observed on a replica, not proved (C06)",
 )
 META = dict(
-    text="Partial. Proved in Coq: the admission checks pass iff every condition of the property holds (ordered model of verifyAndPoolTx over oracle facts), a refusal leaves the pool unchanged (with C08); fee.Calculate equals the sum of the opcode prices of the standard invocation+verification scripts plus the signature checks, for signature accounts and all m-of-n (closed forms over the price table generated from the source for 1<=m,n<=1024); the gas loop of verifyTxWitnesses accepts exactly from the sum of the rounded witness costs on (accepted with the calculated fee, rejected with one Datoshi less) provided each witness fits MaxVerificationGas; the DAO's conflict-record table (newest index per hash and per (hash, signer)) answers exactly 'named by a traceable on-chain transaction sharing a signer' for every on-chain history; the refresh after a block keeps only transactions all of whose witnesses verify in the new state (witness oracle indexed by the chain state; standard signature/multisig witnesses assumed state-independent); ApplyPolicyToTxSet returns a prefix of the pool order within MaxTransactionsPerBlock/MaxBlockSize/MaxBlockSystemFee for the header estimate it uses, and the prefix inherits C08's invariants. Missing: the VM execution of witnesses and attribute/DAO rules are oracles; acceptance of the packed block by the ledger is only observed (replica fed with the serialised block). Correspondence: all shapes to 8-of-8 (thorough: to 200 keys) at fee-1/0/+1 on a real chain, transactions defective in 1-2 planted respects, multi-block conflict-record histories on a chain with a small MaxTraceableBlocks, packing under binding limits, incl. two-signer transactions with Conflicts against transactions paid by someone else and balances that bind (the pool premise of the packing theorem is evaluated on the real pool). Finding: with StateRootInHeader the header estimate is 32 bytes short.",
+    text="Partial. Proved in Coq: the admission checks pass iff every condition of the property holds (ordered model of verifyAndPoolTx over oracle facts), a refusal leaves the pool unchanged (with C08); fee.Calculate equals the sum of the opcode prices of the standard invocation+verification scripts plus the signature checks, for signature accounts and all m-of-n (closed forms over the price table generated from the source for 1<=m,n<=1024), and the same on the executable NeoVM model run on the builders' BYTES with a CheckSig/CheckMultisig handler: halts with true consuming exactly fee.Calculate, faults with one Datoshi less (needs m+n+2 <= MaxStackSize); the gas loop of verifyTxWitnesses accepts exactly from the sum of the rounded witness costs on (accepted with the calculated fee, rejected with one Datoshi less) provided each witness fits MaxVerificationGas; the DAO's conflict-record table (newest index per hash and per (hash, signer)) answers exactly 'named by a traceable on-chain transaction sharing a signer' for every on-chain history; the refresh after a block keeps only transactions all of whose witnesses verify in the new state (witness oracle indexed by the chain state; standard signature/multisig witnesses assumed state-independent); ApplyPolicyToTxSet returns a prefix of the pool order within MaxTransactionsPerBlock/MaxBlockSize/MaxBlockSystemFee for the header estimate it uses, and the prefix inherits C08's invariants. Missing: the VM execution of witnesses and attribute/DAO rules are oracles; acceptance of the packed block by the ledger is only observed (replica fed with the serialised block). Correspondence: all shapes to 8-of-8 (thorough: to 200 keys) at fee-1/0/+1 on a real chain, transactions defective in 1-2 planted respects, multi-block conflict-record histories on a chain with a small MaxTraceableBlocks, packing under binding limits, incl. two-signer transactions with Conflicts against transactions paid by someone else and balances that bind (the pool premise of the packing theorem is evaluated on the real pool). Finding: with StateRootInHeader the header estimate is 32 bytes short.",
     note="Trusted: Coq kernel and vm_compute, the table translator, the hand-written models tied by differential testing on a neotest chain, the Go harness. Assumed: VM/ECDSA/script parsing, DAO conflict records, Policy and attribute rules as oracle facts; C08's hypotheses for the pool.",
 )
